@@ -6,6 +6,7 @@ import Ptn.C06.Demo
 import Ptn.C06.Gauge
 import Ptn.C06.SiteCanon
 import Ptn.C06.SiteNorm
+import Ptn.C06.Link
 import Ptn.C03.Props
 import Ptn.C17.Examples
 /-! Property theorems for C06, part 2 (Mathlib): the combinatorial theorems are in `Core.lean`
@@ -482,5 +483,39 @@ example :
   simp [h3]
 
 end siteCanon
+
+/-! ### The link update: the move split into its two halves (builder B70)
+
+`qrHalf` (the tensor of `a` becomes `Q`, the `R` factor is the tensor of a NEW node `ℓ` sitting on the edge) and
+`absorbHalf` (`ℓ` contracted into `b`), `Link.lean`. -/
+section linkHalves
+open Ptn.Ein Ptn.C06.Gauge Ptn.C03
+
+/-- **`IsoStep = absorbHalf ∘ qrHalf`, record and value.**  For every move of `Ptn.C03.IsoStep` (hence every
+`move` / `hop` / `link` event of `VStep`) on a well-formed network and every unused identifier `ℓ`: there are the
+bond `p`, its ends `a`, `b` and the factorisation `F` of the move such that the result is `gaugeStep …`, the
+intermediate network `qrHalf …` is well-formed, and contracting `ℓ` into the neighbour gives the same nodes, bonds,
+counter, the same legs and tensor at every node, and the same value as the move. -/
+theorem link_move_is_absorb_after_qr {R : Type} [CommSemiring R] (dim : Nat → Nat) (cj : R → R) {N N' : VNet R}
+    {n m ℓ : Nat} (h : N.WF) (hs : IsoStep dim cj N ⟨n, m⟩ N') (hℓ : ℓ ∉ N.ids) :
+    ∃ (p : Nat × Nat) (a b : Nat) (F : QRFact dim (N.tens n) (N.legs n) a N.next (N.next + 1)),
+      N.Joined n m p a b ∧ N' = gaugeStep dim N n m p a b F ∧ (qrHalf dim N n ℓ a F).WF ∧
+      (absorbHalf dim (qrHalf dim N n ℓ a F) ℓ m p b (N.next + 1)).ids = N'.ids ∧
+      (absorbHalf dim (qrHalf dim N n ℓ a F) ℓ m p b (N.next + 1)).bonds = N'.bonds ∧
+      (absorbHalf dim (qrHalf dim N n ℓ a F) ℓ m p b (N.next + 1)).next = N'.next ∧
+      (∀ k ∈ N.ids, (absorbHalf dim (qrHalf dim N n ℓ a F) ℓ m p b (N.next + 1)).legs k = N'.legs k ∧
+        (absorbHalf dim (qrHalf dim N n ℓ a F) ℓ m p b (N.next + 1)).tens k = N'.tens k) ∧
+      ∀ σ, (absorbHalf dim (qrHalf dim N n ℓ a F) ℓ m p b (N.next + 1)).value dim σ = N'.value dim σ := by
+  cases hs with
+  | mk _ _ p a b hn hm hnm hj F hiso hdim =>
+    obtain ⟨h1, h2, h3, h4⟩ := absorbHalf_qrHalf dim N (ℓ := ℓ) (b := b) F hn hm hnm hℓ hj.1
+    exact ⟨p, a, b, F, hj, rfl, qrHalf_wf h hn hℓ hj.2.2.1, h1, h2, h3, h4,
+      fun σ => absorbHalf_qrHalf_value dim N F hn hm hnm hℓ hj.1 σ⟩
+
+/-- non-vacuity: the move `0 → 1` on the integer network `Ptn.C03.isoNet`, link identifier 2 -/
+example : isoNet.WF ∧ IsoStep demoDim id isoNet ⟨0, 1⟩ isoNet' ∧ 2 ∉ isoNet.ids :=
+  ⟨isoNet_wf, by cases isoNet_run with | cons hs hr => cases hr; exact hs, by simp [isoNet]⟩
+
+end linkHalves
 
 end Ptn.C06
